@@ -2,6 +2,7 @@ package kvql
 
 import (
 	"fmt"
+	"strconv"
 	"strings"
 )
 
@@ -270,6 +271,10 @@ func (a *AggregatePlan) batchGetAggrKeys(chunk []KVPair, ctx *ExecuteCtx) ([]str
 			if err != nil {
 				return nil, err
 			}
+			// Prefix the length of the value, or ('a', 'bc') and ('ab', 'c')
+			// will be put into the same group
+			aggKey = strconv.AppendInt(aggKey, int64(len(bval)), 10)
+			aggKey = append(aggKey, ':')
 			aggKey = append(aggKey, bval...)
 		}
 		ret[i] = string(aggKey)
@@ -517,7 +522,9 @@ func (a *AggregatePlan) getAggrKey(key []byte, val []byte, ctx *ExecuteCtx) (str
 		if err != nil {
 			return "", err
 		}
-		gkey += string(bval)
+		// Prefix the length of the value, or ('a', 'bc') and ('ab', 'c')
+		// will be put into the same group
+		gkey += strconv.Itoa(len(bval)) + ":" + string(bval)
 	}
 	return gkey, nil
 }
